@@ -392,6 +392,67 @@ func judgeBind(c *bindCase, st reflect.Type, path string, run func(target any) e
 	return "", "", o
 }
 
+// SrvBig is the element type of the "bindbig" cases
+type SrvBig struct {
+	Name string
+	Port int
+	Host string `bcl:"host_name"`
+	On   bool
+	Load float64
+}
+
+// bindBig: N blocks `def srv "n<i>" { port = 1000+i; host_name = "h<i>"; on = <i even>; load = i + 0.5 }` bound to a slice (all) or a
+// struct (last); the expected value is known in closed form
+func bindBig(n int, bk string) (why string, obs any) {
+	var sb strings.Builder
+	want := make([]SrvBig, n)
+	for i := 0; i < n; i++ {
+		fmt.Fprintf(&sb, "def srv_big \"n%d\" {\n port = %d\n host_name = \"h%d\"\n on = %v\n load = %d.5\n}\n", i, 1000+i, i, i%2 == 0, i)
+		want[i] = SrvBig{fmt.Sprintf("n%d", i), 1000 + i, fmt.Sprintf("h%d", i), i%2 == 0, float64(i) + 0.5}
+	}
+	var err error
+	var got any
+	pan := ""
+	func() {
+		defer func() {
+			if r := recover(); r != nil {
+				pan = fmt.Sprint(r)
+			}
+		}()
+		if bk == "slice" {
+			sb.WriteString("bind srv_big:all -> slice\n")
+			t := []SrvBig{{Name: "stale"}}
+			err = bcl.Unmarshal([]byte(sb.String()), &t, bcl.OptLogger(&bytes.Buffer{}), bcl.OptOutput(&bytes.Buffer{}))
+			got = t
+			if pan == "" && err == nil && !reflect.DeepEqual(t, want) {
+				why = fmt.Sprintf("slice of %d blocks: the unmarshalled value differs from what was written", n)
+			}
+		} else {
+			sb.WriteString("bind srv_big:last -> struct\n")
+			var t SrvBig
+			err = bcl.Unmarshal([]byte(sb.String()), &t, bcl.OptLogger(&bytes.Buffer{}), bcl.OptOutput(&bytes.Buffer{}))
+			got = t
+			if pan == "" && err == nil && t != want[n-1] {
+				why = fmt.Sprintf("last of %d blocks: got %+v, written %+v", n, t, want[n-1])
+			}
+		}
+	}()
+	switch {
+	case pan != "":
+		return "panic: " + pan, pan
+	case err != nil:
+		return fmt.Sprintf("%d blocks: error %v", n, err), err.Error()
+	}
+	if why != "" {
+		s := fmt.Sprintf("%+v", got)
+		if len(s) > 600 {
+			s = s[:600] + "…"
+		}
+		return why, s
+	}
+	return "", nil
+}
+
 func replayBind(args []string) int {
 	op := parseOpts(args)
 	s := newSummary("bind")
@@ -413,6 +474,19 @@ func replayBind(args []string) int {
 			return
 		}
 		if !s.note(raw, c.NT, raw) {
+			return
+		}
+		if c.Fam == "bindbig" {
+			var b struct {
+				N  int    `json:"n"`
+				BK string `json:"bk"`
+			}
+			json.Unmarshal(raw, &b)
+			s.Judged++
+			s.Classes["big"]++
+			if why, obs := bindBig(b.N, b.BK); why != "" && mine("target-differs") {
+				s.bad(why, "big:"+b.BK, raw, obs, true)
+			}
 			return
 		}
 		s.Classes[c.Expect]++
